@@ -232,8 +232,10 @@ func pairConsumers() []pairConsumer {
 	})
 	with("MatMul-weight", func(in, out string, v *ref.T) (*onnx.NodeProto, map[string]*ref.T, bool) {
 		r := len(v.Shape)
-		if !isF32(v) || r == 0 || v.Shape[r-1] == 1 {
-			return nil, nil, false // an inner dimension of 1 runs into KF-C04-1 (vector-like operands on the batched path)
+		if !isF32(v) || r == 0 || v.Shape[r-1] == 1 || v.Shape[r-1] > 2048 {
+			// an inner dimension of 1 runs into KF-C04-1 (vector-like operands on the batched path); a very long one
+			// needs the dot-product error bound of C04, not this sweep's fixed tolerance
+			return nil, nil, false
 		}
 		return nd("MatMul", []string{in, out + "_w"}, out), map[string]*ref.T{out + "_w": recFill(ref.F32, []int{v.Shape[r-1], 2}, 27)}, true
 	})
